@@ -204,7 +204,7 @@ theorem sameEV_refl : ∀ (x : EV) (c : Ctx), domEV c x = true → sameEV x x = 
   | .struct t fs vs, c, h => by
       simp only [domEV, Bool.and_eq_true, beq_iff_eq] at h
       simp only [sameEV, strip, beq_self_eq_true, Bool.true_and]
-      exact sameFields_refl fs vs h.1.1 h.2
+      exact sameFields_refl fs vs h.1 h.2
 
 theorem sameList_refl : ∀ (xs : List EV), domList xs = true → sameList xs xs = true
   | [], _ => by simp [sameList]
@@ -258,9 +258,9 @@ mutual
 theorem sameDesc_refl : ∀ (a : Val), inDomain a = true → sameDesc a a = true
   | .nil, _ => by simp [sameDesc]
   | .leaf l, h => by
-      simp only [inDomain, Bool.and_eq_true] at h
+      simp only [inDomain] at h
       simp only [sameDesc]
-      exact sameEV_refl _ _ h.1
+      exact sameEV_refl _ _ h
   | .stk f c xs, h => by
       simp only [inDomain, Bool.and_eq_true] at h
       simp only [sameDesc, beq_self_eq_true, sameKind_refl, Bool.true_and]
@@ -481,9 +481,9 @@ theorem sameDesc_symm : ∀ (a b : Val), inDomain a = true → inDomain b = true
       cases b with
       | nil => simpa [sameDesc] using h
       | leaf l' =>
-          simp only [inDomain, Bool.and_eq_true] at hb
+          simp only [inDomain] at hb
           simp only [sameDesc] at h ⊢
-          exact sameEV_symm _ _ _ _ ha.1 hb.1 h
+          exact sameEV_symm _ _ _ _ ha hb h
       | _ => simp [sameDesc] at h
   | .stk f c xs, b, ha, hb, h => by
       simp only [inDomain, Bool.and_eq_true] at ha
